@@ -119,7 +119,7 @@ def load(val, import_custom_exceptions, instantiate_custom_exceptions, instantia
 
     if instantiate_custom_exceptions:
         if modname in sys.modules:
-            cls = getattr(sys.modules[modname], clsname, None)
+            cls = _lookup_class(sys.modules[modname], clsname, import_custom_exceptions)
         else:
             cls = None
     elif modname == exceptions_module.__name__:
@@ -165,6 +165,15 @@ def load(val, import_custom_exceptions, instantiate_custom_exceptions, instantia
 
     exc._remote_tb = tbtext
     return exc
+
+
+def _lookup_class(module, clsname, run_hooks):
+    """Finds ``clsname`` in an already imported module. A module-level ``__getattr__``
+    (:pep:`562`) may import further modules, so it is consulted only when importing
+    custom exceptions is allowed; otherwise only the module's own namespace is read"""
+    if run_hooks:
+        return getattr(module, clsname, None)
+    return getattr(module, "__dict__", {}).get(clsname)
 
 
 class GenericException(Exception):
